@@ -1,4 +1,4 @@
-HOOK_COMMITS = ["3190446"]
+HOOK_COMMITS = ["3190446", "4e60262"]
 NOTES = ("All checks: bin/check <id> --tier quick|thorough (env VERIF_SEED). Exit 0 held / 1 violation / 2 machinery error. "
          "Known findings: /verif/known_findings.jsonl. Design: /verif/DESIGN.md.")
 NOT_APPLICABLE = {
@@ -29,7 +29,9 @@ CHECKS = {
                 "operands (every vertex, every edge midpoint, both faces beside every edge); TLC validates every recorded "
                 "Union/Intersection/Difference/SymmetricDifference/UnaryUnion/UnionMany result of the real library (lifted from floats to "
                 "arrangement vertices) against that definition, plus canonical shape, no error and validity.",
-        "note": TLCNOTE + "Exact decision on lattices N<=6 and their exact-similarity / general-position images; result vertices "
+        "note": TLCNOTE + "Pipeline state: one case in six exports the real DCEL through the verif hook geom.VerifOverlayDump and DCEL.tla "
+                "checks its structural invariants (twin/next/prev, face cycles, Euler, label closure) and re-derives every face label "
+                "that has a straight lattice edge. Exact decision on lattices N<=6 and their exact-similarity / general-position images; result vertices "
                 "checked to 2^-15; ambiguous lifts are inconclusive, never guessed.",
         "technique": "TLA+ set-theoretic overlay oracle on the exact arrangement; TLC trace validation of recorded set-operation results",
     },
